@@ -12,6 +12,7 @@ classdef("CommandMetadataX", fields=dict(arguments=Seq(AM), name=Str, state_argu
 classdef("ArgParserX", abstract=True, fields={})
 classdef("PyFunction", abstract=True, fields={})        # the registered Python function: arbitrary code
 classdef("liquer.commands.CommandExecutable", fields=dict(f=Ref("PyFunction"), metadata=Ref("CommandMetadataX"), argument_parser=Ref("ArgParserX")))
+classdef("liquer.commands.FirstCommandExecutable", bases=["CommandExecutable"], fields={})
 
 
 @interface("ArgParserX.parse_meta", params=dict(self=Ref("ArgParserX"), metadata=Seq(AM), args=Seq(Any), context=Opt(CX)),
